@@ -188,6 +188,13 @@ static void binary(Ctx &c, const std::string &x, const std::string &y) {
 		expect_str(c, pe, x + y, "operator+=(view)");
 		Str em(f.al); em += vy;
 		expect_str(c, em, y, "+= view on a default-constructed string");
+		// overloads the batteries above do not reach: writing through the non-const begin()/end(), (size) and (size, char) with
+		// the defaulted arguments, find_first_of without a start
+		{ Str w(sx); for(char *p = w.begin(); p != w.end(); ++p) *p = (char)(*p == 'a' ? 'b' : 'a'); std::string wx = x; for(auto &ch : wx) ch = (ch == 'a' ? 'b' : 'a'); expect_str(c, w, wx, "writes through begin()/end()");
+		  if((size_t)(w.end() - w.begin()) != x.size()) c.fail("iter", "non-const end() - begin()");
+		  Str z0(x.size()); expect_str(c, z0, std::string(x.size(), '\0'), "basic_string(size)");
+		  Str z1(y.size(), 'q'); expect_str(c, z1, std::string(y.size(), 'q'), "basic_string(size, char)");
+		  size_t f0 = vx.find_first_of(vy), r0 = x.find_first_of(y); if(f0 != (r0 == std::string::npos ? (size_t)-1 : r0)) c.fail("find_first_of", strf("find_first_of(%s) without a start on %s = %zu, expected %zu", show(y).c_str(), show(x).c_str(), f0, r0)); }
 		// a view without data (default-constructed; what an option that was not given leaves behind) appended to strings with and
 		// without a buffer: afterwards the string owns a terminated buffer like after any other append
 		{ Str n1(f.al); n1 += View(); expect_str(c, n1, "", "+= of a default-constructed view on a default-constructed string");
